@@ -23,7 +23,13 @@ RULE = ('random CFGs (<=5 non-terminals, <=4 single-character terminals, <=3 alt
         'item sets and to_scan sets after every predict_and_complete call, accept/reject, exception class and position, '
         'compared inside Coq with Earley/Alg.earley_parse; acceptance is also compared with an independent span-based '
         'derivability oracle in Python. non-trivial = distinct (compiled rules, input) with >= 2 columns and >= 1 '
-        'completed item')
+        'completed item. Text-level streams (oracle computed from the meaning of the grammar text, props/earley_ignore_gen.py): '
+        'multi-ignore = string terminals with 2-3 %ignore strings of different lengths overlapping each other and the '
+        'following terminals, all strings up to length 5 plus sentences with ignored text spliced in, all three lexers '
+        '(character-level derivability with IGN* at the start and after every terminal for the dynamic lexers; '
+        'longest-literal tokenisation for basic); anon-names = anonymous punctuation/keyword literals next to user-defined '
+        'or imported terminals that occupy the names lark derives from those literals, inputs = sentences, random '
+        'concatenations of the grammar\'s token strings, one-edit mutations')
 TRUSTED_BASE = ['hand model Earley/Alg.v of earley.Parser.predict_and_complete/scan/_parse/parse and Cfg/Analysis.v of '
                 'GrammarAnalyzer.expand_rule (tied by per-column item-set comparison and direct comparison of '
                 'Parser.predictions / NULLABLE)',
@@ -669,6 +675,79 @@ def run_exotic(ctx):
                               key=key)
 
 
+# ---------------------------------------------------------------------------------------------
+# text-level streams: the oracle is computed from the meaning of the grammar TEXT (props/earley_ignore_gen.py),
+# not from lark's compiled rules / terminals
+def check_text_grammar(ctx, rng, tg, stream, lexers, inputs):
+    gtext = tg.render()
+    from props import earley_ignore_gen as eig
+    ambiguity = rng.choice([None, 'forest'])
+    larks = {}
+    for lexer in lexers:
+        st, obj = build(gtext, lexer, ambiguity)
+        ctx.count(stream + ':construct', key=(gtext, lexer), nontrivial=False, construct=st)
+        if st == 'ok':
+            larks[lexer] = obj
+        else:
+            ctx.violation('construct', {'grammar': gtext, 'lexer': lexer, 'ambiguity': ambiguity, 'mode': 'construct',
+                                        'observed': '%s %s' % (st, obj)}, True,
+                          'constructing the parser for a grammar of plain string terminals %s'
+                          % ('did not terminate within the timeout' if st == 'hang' else 'raised %s %s' % (st, obj)))
+    local_hangs = 0
+    for text, why in inputs:
+        if local_hangs >= 2 or ctx.extra.get('hangs', 0) >= 8:
+            break
+        want = {}
+        for lexer, lk in larks.items():
+            if lexer == 'basic':
+                wkey = 'basic'
+            else:
+                wkey = 'complete' if (lexer == 'dynamic_complete' or tg.string_only()) else 'longest'
+            if wkey not in want:
+                want[wkey] = (eig.member_basic(tg, text) if wkey == 'basic'
+                              else eig.member_dynamic(tg, text, complete=(wkey == 'complete')))
+            expect = want[wkey]
+            status, pos, log = run_parse(lk, text)
+            if status == 'hang':
+                status, pos, log = run_parse(lk, text, timeout=30.0)
+            got = status == 'accept'
+            ctx.count(stream, key=(gtext, lexer, text), nontrivial=len(text) >= 2, lexer=lexer, outcome=status,
+                      input_kind=why)
+            w = {'grammar': gtext, 'lexer': lexer, 'ambiguity': ambiguity, 'text': text, 'mode': 'parse-text',
+                 'expected_accept': expect, 'observed': status}
+            if status == 'hang':
+                ctx.violation('hang', w, True, 'parse did not terminate within the timeout')
+                ctx.extra['hangs'] = ctx.extra.get('hangs', 0) + 1
+                local_hangs += 1
+            elif status.startswith('other:') or status.startswith('UnexpectedInput:'):
+                ctx.violation('exception-class', w, True,
+                              'parse raised %s (neither a result nor UnexpectedEOF/Token/Characters)' % status)
+            elif got != expect:
+                ctx.violation('language', w, True,
+                              '%s %r although the grammar text (%s) %s it'
+                              % ('accepted' if got else 'rejected (%s)' % status, text,
+                                 'tokens by longest literal' if lexer == 'basic' else 'characters, ignored strings between tokens',
+                                 'does not derive' if got else 'derives'))
+    if inputs:
+        ctx.sample({'stream': stream, 'grammar': gtext, 'inputs': len(inputs), 'example_input': inputs[len(inputs) // 2][0]})
+
+
+def run_text_streams(ctx, rng, wide):
+    from props import earley_ignore_gen as eig
+    # several overlapping %ignore strings: dynamic lexers, character-level oracle with IGN* between tokens
+    for _ in range(ctx.scale(40, 400) * wide):
+        tg = eig.gen_ignore_grammar(rng)
+        inputs = eig.gen_inputs(rng, tg, exhaustive_len=ctx.scale(5, 6), n_sent=ctx.scale(30, 60), n_mut=ctx.scale(40, 80))
+        check_text_grammar(ctx, rng, tg, 'multi-ignore', LEXERS, inputs)
+    # anonymous literals vs named terminals occupying the literals' auto-names: all lexers
+    for _ in range(ctx.scale(60, 500) * wide):
+        tg = eig.gen_anon_grammar(rng)
+        inputs = eig.gen_inputs(rng, tg, exhaustive_len=1, n_sent=ctx.scale(20, 40), n_mut=ctx.scale(15, 40),
+                                n_concat=ctx.scale(25, 60), max_sent_len=12)
+        lexers = LEXERS if tg.string_only() else ('dynamic', 'dynamic_complete')
+        check_text_grammar(ctx, rng, tg, 'anon-names', lexers, inputs)
+
+
 def correspond(ctx):
     patch_lark()
     rng = ctx.rng
@@ -677,7 +756,7 @@ def correspond(ctx):
     meta = {'earley': [], 'pred': [], 'null': []}
     seen = set()
     t0 = time.time()
-    n_cfg = ctx.scale(60, 900) * wide
+    n_cfg = ctx.scale(50, 900) * wide
     n_ebnf = ctx.scale(12, 150) * wide
     n_ign = ctx.scale(10, 100) * wide
     n_exh, n_extra = ctx.scale(24, 50), ctx.scale(8, 16)
@@ -696,6 +775,7 @@ def correspond(ctx):
         names, chars, g = gen_cfg(rng)
         check_grammar(ctx, rng, render(rng, names, chars, g), 'ignore', cases, meta, seen, n_exh // 2, n_extra,
                       ignore=True)
+    run_text_streams(ctx, rng, wide)
     ctx.extra['lark_seconds'] = round(time.time() - t0, 1)
     run_exotic(ctx)
     t1 = time.time()
